@@ -354,11 +354,24 @@ func cmds(args []string) error {
 		}
 		for i := 0; i < *per; i++ {
 			key := fmt.Sprintf("%s:%d:%d", name, i, rnd.Intn(1000000))
-			switch rnd.Intn(4) {
+			// key shapes: plain, hash tags in every position the Redis Cluster rule distinguishes, binary-unsafe bytes
+			switch rnd.Intn(10) {
 			case 0:
 				key = "{" + key + "}tail"
 			case 1:
 				key = key + "\r\n\x00"
+			case 2:
+				key = "a}b{" + key + "}c" // a '}' before the first '{'
+			case 3:
+				key = "}{" + key + "}"
+			case 4:
+				key = "{}{" + key + "}" // empty first tag: the whole key is hashed
+			case 5:
+				key = "{{" + key + "}}"
+			case 6:
+				key = "{" + key + "}{other}"
+			case 7:
+				key = key + "{unclosed"
 			}
 			a := [][]byte{[]byte(strings.ToUpper(name)), []byte(key)}
 			switch name {
